@@ -2,6 +2,7 @@
 import os
 import random
 import shutil
+import re
 import subprocess
 
 from .. import tlc
@@ -107,7 +108,12 @@ def run(chk):
     # bind the lexer spec to javac: androguard's own outputs for a sample + hand-made escape torture literals
     n_javac = 150 if quick else 2000
     lits = []
-    pool = [r_ for r_ in recs if all(32 <= c < 127 for c in r_["lit"])]
+    # javac 17 quirk (not JLS): a lone *high* surrogate written as a unicode escape, directly followed by an even run of backslashes and
+    # another unicode escape ("\\udb46\\\\\\u0041"), is rejected with "illegal escape character" (its surrogate-pair look-ahead loses the
+    # backslash parity); "\\udb46x\\\\\\u0041", a low surrogate or a complete pair in that place are accepted.  Such literals are left out of
+    # the cross-validation of the lexer specification against javac.
+    quirk = re.compile(r"\\u[dD][89abAB][0-9a-fA-F]{2}(?:\\\\)+\\u")
+    pool = [r_ for r_ in recs if all(32 <= c < 127 for c in r_["lit"]) and not quirk.search("".join(map(chr, r_["lit"])))]
     for r_ in rnd.sample(pool, min(n_javac, len(pool))):
         lits.append("".join(map(chr, r_["lit"])))
     torture = ['"\\\\u0041"', '"\\u0041"', '"\\uu0041"', '"\\101"', '"\\401"', '"\\7"', '"\\77a"', '"\\u005c\\u005c"', '"a\\u0022b"', '"\\u000a"', '"\\s"',
